@@ -216,18 +216,9 @@ func imagegen2Exec(op string, res *Result) string {
 		return line
 	}
 	got, cls := imgReadAll(sink, o.j, res)
-	if res.Violation == nil && cls == "size" {
-		// known finding F43: stages that expand the block beyond the Reader's bound on the pre-transform
-		// length (SRT x5 on 1 KiB blocks): written without error, rejected by the Reader
-		if msg := ig2ReadErr(sink, o.j); strings.Contains(msg, "Invalid compressed block size") {
-			res.Tags = append(res.Tags, "known:F43-expansion-limit")
-			res.Violation = &Violation{Kind: "input", Site: "io.decodingTask.decode", Symptom: "decode-error",
-				What: fmt.Sprintf("%s/%s bs=%d: written without error, Reader: %s", o.tr, o.en, o.bs, msg)}
-		}
-	}
 	if res.Violation == nil && (cls != "ok" || !bytes.Equal(got, data)) {
 		res.Violation = &Violation{Kind: "input", Site: "io.Reader.Read", Symptom: "roundtrip-mismatch",
-			What: fmt.Sprintf("%s/%s bs=%d ck=%d: Reader (jobs %d) returned %d bytes (hash %d), class %s; expected %d bytes (hash %d)", o.tr, o.en, o.bs, o.ck, o.j, len(got), hash32(got), cls, len(data), hash32(data))}
+			What: fmt.Sprintf("%s/%s bs=%d ck=%d: Reader (jobs %d) returned %d bytes (hash %d), class %s (%s); expected %d bytes (hash %d)", o.tr, o.en, o.bs, o.ck, o.j, len(got), hash32(got), cls, ig2ReadErr(sink, o.j), len(data), hash32(data))}
 	}
 	if o.kind == "imggr2" {
 		return line + fmt.Sprintf(" | r=%s:%d:%d", cls, len(got), hash32(got))
@@ -235,7 +226,7 @@ func imagegen2Exec(op string, res *Result) string {
 	return line
 }
 
-// ig2ReadErr: the message of the error that ends reading the stream ("" = none)
+// ig2ReadErr: the message of the error that ends reading the stream (kept for diagnostics) ("" = none)
 func ig2ReadErr(stream []byte, jobs int) (msg string) {
 	defer func() {
 		if p := recover(); p != nil {
@@ -273,9 +264,10 @@ func ig2Chain(r *rand.Rand, n int) string {
 			t[i] = ig2New[r.Intn(len(ig2New))]
 		}
 		if t[i] == "SRT" {
-			// SRT adds 256..1030 bytes per stage: more than 3 of them overflow the reader's bound on the
-			// pre-transform length for 1 KiB blocks (finding: the Writer does not check it)
-			if srt++; srt > 3 {
+			// SRT adds 256..1030 bytes per stage: more than 4 of them overflow the reader's bound on the
+			// pre-transform length for 1 KiB blocks (finding F43, repaired: the block is then stored
+			// untransformed); keep most chains below that, the directed family regression-F43 goes beyond
+			if srt++; srt > 5 {
 				t[i] = "RLT"
 			}
 		}
@@ -384,10 +376,12 @@ func imagegen2Gen(r *rand.Rand, tier string, n int, emit func(op string, tags ..
 		emit(ig2Line(kindOf(), 4096, cks[i%3], "RLT", []string{"NONE", "HUFFMAN", "RANGE", "ANS0"}[i%4], 0, 1, false, 22, seed, "1000"), "family:obuf-sensitive-single")
 		emit(ig2Line(kindOf(), 4096, cks[i%3], "ZRLT+RLT", "NONE", 0, 1, false, 22, seed, "5096"), "family:obuf-sensitive-odd")
 	}
-	// 4b. known finding F43: five or more SRT stages on 1 KiB blocks overflow the Reader's bound on the
-	// pre-transform length; the model must reproduce the Reader's answer
-	for i, tr := range []string{"SRT+SRT+SRT+SRT+SRT", "SRT+SRT+SRT+SRT+SRT+SRT", "SRT+RLT+SRT+SRT+SRT+SRT+SRT+SRT"} {
-		emit(ig2Line("imggr2", 1024, cks[i%3], tr, ig2Ents[i%5], 0, 1, false, []int{0, 9, 13}[i], i, []string{"1024", "2048", "1500"}[i]), "family:known-F43")
+	// 4b. regression of finding F43 (repaired: /repo dfafae0): five or more SRT stages on 1 KiB blocks expand
+	// a block beyond the Reader's bound on the pre-transform length; such a block is now stored untransformed
+	// (skip flags 0xFF) and round-trips; a short last block of the same stream may still be transformed
+	for i, tr := range []string{"SRT+SRT+SRT+SRT+SRT", "SRT+SRT+SRT+SRT+SRT+SRT", "SRT+RLT+SRT+SRT+SRT+SRT+SRT+SRT",
+		"SRT+SRT+SRT+SRT+SRT+LZ", "MM+SRT+SRT+SRT+SRT+SRT+SRT+SRT"} {
+		emit(ig2Line("imggr2", 1024, cks[i%3], tr, ig2Ents[i%5], 0, 1+i%2, false, []int{0, 9, 13, 20, 12}[i], i, []string{"1024", "2048", "1500", "2100", "3072"}[i]), "family:regression-F43")
 	}
 	// 4c. the conditional entropy codecs FPAQ and CM (small blocks: the bitwise models are slow)
 	for i, tr := range []string{"NONE", "LZ", "RLT+SRT", "DNA+LZ", "PACK+MM+LZX", "LZP"} {
